@@ -495,14 +495,25 @@ def check_router(ctx, model):
     v = ctx.view(p, "C19-R7")
     if v is not None:
         spec = HelperGuard("simulate_swap_operations(..)?", r"^terraswap_router::contract::simulate_swap_operations$")
-        saves = [(b, t) for b, t in v.iter_calls() if storage_call(t) and storage_call(t)[1] == "save"]
-        ok = bool(saves) and all(site_guarded(model, (), p, b, spec)[0] for b, _ in saves)
+        # the per-route body is the handler's loop or the closure of `.map(..).collect()`: wherever the save is
+        from .common import scope_views, scope_origins
+        n_saves = 0
+        ok = True
         same = True
-        for b, t in v.calls_to(r"^terraswap_router::contract::simulate_swap_operations$"):
-            ops = arg_origins(v, b, t, 2)
-            for sb, st in saves:
-                val = arg_origins(v, sb, st, 2)
-                same = same and bool(ops) and {(o.kind, o.a, o.b) for o in ops} == {(o.kind, o.a, o.b) for o in val}
+        for sv, ch in scope_views(model, p):
+            saves = [(b, t) for b, t in sv.iter_calls() if storage_call(t) and storage_call(t)[1] == "save"]
+            if not saves:
+                continue
+            n_saves += len(saves)
+            ok = ok and all(site_guarded(model, ch, sv.path, b, spec)[0] for b, _ in saves)
+            sims = sv.calls_to(r"^terraswap_router::contract::simulate_swap_operations$")
+            same = same and bool(sims)
+            for b, t in sims:
+                ops = scope_origins(model, ch, sv, t["args"][2], sv.at_term(b))
+                for sb, st in saves:
+                    val = scope_origins(model, ch, sv, st["args"][2], sv.at_term(sb))
+                    same = same and bool(ops) and {(o.kind, o.a, o.b) for o in ops} == {(o.kind, o.a, o.b) for o in val}
+        ok = ok and n_saves > 0
         ctx.ob("C19-R7", "%s|route-simulated-before-stored" % p, ok and same,
                "route save dominated by a successful simulation: %s; the simulated operations are the stored ones: %s" % (ok, same), v.where())
     for q in ("terraswap_router::operations::execute_swap_operation", "terraswap_router::contract::simulate_swap_operations", "terraswap_router::contract::reverse_simulate_return_amount"):
